@@ -102,7 +102,7 @@ fn special(rng: &mut Rng, w: usize, cur: u64) -> (u64, &'static str) {
                 0 => rng.next_u64(),
                 1 => cur.wrapping_mul(2),
                 2 => cur / 2,
-                _ => rng.skewed(umax),
+                _ => rng.skewed(umax.min(u64::MAX - 1)),
             };
             (v & umax, "field:random")
         }
@@ -709,7 +709,8 @@ pub fn mutate_item(it: &Prepared, rng: &mut Rng) -> Mutated {
             // cut the stream and append garbage
             let at = rng.usize_below(p.len() + 1);
             p.truncate(at);
-            p.extend(rng.bytes(rng.usize_below(40)));
+            let n = rng.usize_below(40);
+            p.extend(rng.bytes(n));
             classes.push("truncate+garbage");
         }
         let block_len = *rng.pick(&[65280usize, 65280, 65280, 16384, 4093, 512, 77, (p.len() / 3).max(1)]);
